@@ -283,12 +283,12 @@ Section EqSingle.
     whole_run pm None cfg n f fs wp = Some o1 ->
     whole_run pm (Some EThread) cfg n f fs wp = Some o2 ->
     uniq n = true -> Forall (inline_present n) fs ->
-    Forall (fun x => texts_ok (f_msgs x)) fs -> Forall macro_local n ->
+    Forall (fun x => texts_nonempty (f_msgs x)) fs -> Forall macro_local n ->
     (forall t, In t (map snd (o_reported o1)) <-> In t (map snd (o_reported o2)))
     /\ o_unmatched o2 = o_unmatched o1 /\ o_status o2 = o_status o1 /\ o_nomsg o2 = o_nomsg o1.
   Proof.
     intros H1 H2 Hu Hin Hok Hml.
-    destruct (thread_equals_single pm cfg n f fs wp o1 o2 H1 H2 Hu Hin Hok Hml) as [Hn Hum].
+    destruct (thread_equals_single_ne pm cfg n f fs wp o1 o2 H1 H2 Hu Hin Hok Hml) as [Hn Hum].
     split; [exact (parallel_reported_eq_single EThread cfg n f fs wp o1 o2 H1 H2 Hin Hml)|].
     split; [exact Hum|]. split; [|exact Hn].
     exact (parallel_status_eq_single EThread cfg n f fs wp o1 o2 H1 H2 Hin Hum).
